@@ -50,6 +50,7 @@ def run_case(ctx, case):
             return
         if has_float(curve.ctrlpoints) or has_float(curve.weights):
             rec.violation("float introduced for exact data", case)
+        unit_matrix(rec, drv, case, "ops.elev", lambda: heavy.Operations.degree_increase(tuple(U), t), "ops.elev", list(U), t)
         if mode == "roundtrip":
             r = impl(lambda: curve.degree_decrease(t))
             back = curve_state(curve)
